@@ -59,7 +59,8 @@ type inst struct {
 	conn    *wire.StallConn
 	op      func(ctx context.Context) error // the call under test
 	peer    func(ctx context.Context) error // the real cedar peer
-	cleanup func()
+	closeLink func() // closes both ends (the peer's blocked I/O then fails)
+	cleanup   func() // after the peer has ended: leftovers, sessions, listener
 }
 
 type shape struct {
@@ -74,10 +75,10 @@ var runSerial int64
 
 // link makes a TCP loopback pair and wraps the end under test.
 // underTestDials: the operation under test uses the dialing end (clients, plain ops).
-func link(underTestDials bool) (sc *wire.StallConn, mine, theirs net.Conn, cleanup func(), err error) {
+func link(underTestDials bool) (sc *wire.StallConn, mine, theirs net.Conn, closeLink, cleanup func(), err error) {
 	d, a, release, err := wire.C19TCPPair()
 	if err != nil {
-		return nil, nil, nil, nil, err
+		return nil, nil, nil, nil, nil, err
 	}
 	_, port, _ := net.SplitHostPort(a.LocalAddr().String())
 	under, other := d, a
@@ -85,9 +86,12 @@ func link(underTestDials bool) (sc *wire.StallConn, mine, theirs net.Conn, clean
 		under, other = a, d
 	}
 	sc = wire.NewStallConn(under)
-	cleanup = func() {
+	closeLink = func() {
 		sc.Teardown()
 		_ = other.Close()
+	}
+	cleanup = func() {
+		closeLink()
 		// FS authentication creates /tmp/FS_<server ip>_<server port>_* and may leave
 		// it behind when the exchange is cut; the port is still reserved by our listener
 		if m, _ := filepath.Glob(fmt.Sprintf("/tmp/FS_127.0.0.1_%s_*", port)); len(m) > 0 {
@@ -97,7 +101,7 @@ func link(underTestDials bool) (sc *wire.StallConn, mine, theirs net.Conn, clean
 		}
 		release()
 	}
-	return sc, sc, other, cleanup, nil
+	return sc, sc, other, closeLink, cleanup, nil
 }
 
 func payload(n int, salt byte) []byte {
@@ -247,7 +251,7 @@ func plainDefs() []plainDef {
 
 func plainShape(d plainDef) *shape {
 	return &shape{Name: d.name, Role: "plain", prepare: func(e *env) (*inst, error) {
-		sc, mine, theirs, cleanup, err := link(true)
+		sc, mine, theirs, closeLink, cleanup, err := link(true)
 		if err != nil {
 			return nil, err
 		}
@@ -262,7 +266,7 @@ func plainShape(d plainDef) *shape {
 				return nil, err
 			}
 		}
-		return &inst{conn: sc,
+		return &inst{conn: sc, closeLink: closeLink,
 			op:      func(ctx context.Context) error { return d.op(ctx, a) },
 			peer:    func(ctx context.Context) error { return d.peer(ctx, b) },
 			cleanup: cleanup}, nil
@@ -356,7 +360,7 @@ func hsShape(d hsDef, role string) *shape {
 				return nil, fmt.Errorf("first handshake stored no client session")
 			}
 		}
-		sc, mine, theirs, cleanup0, err := link(role == "client")
+		sc, mine, theirs, closeLink, cleanup0, err := link(role == "client")
 		if err != nil {
 			dropSessions()
 			return nil, err
@@ -385,7 +389,7 @@ func hsShape(d hsDef, role string) *shape {
 			}
 			return err
 		}
-		in := &inst{conn: sc, cleanup: func() {
+		in := &inst{conn: sc, closeLink: closeLink, cleanup: func() {
 			cleanup0()
 			select {
 			case id := <-sidCh:
